@@ -88,6 +88,7 @@ func scenarioUnit(s *Scenario, opt exploreOpts, oracles ...Oracle) *Unit {
 		}
 		res.BoundCompleted = st.BoundCompleted
 		res.Exhaustive = st.Exhaustive
+		res.CapHit = st.CapHit
 		res.Violations = st.Violations
 		res.HarnessErrors = st.HarnessErrors
 		res.Sample = map[string]any{"scenario": s.String(), "reference": s.Ref.Summary()}
